@@ -15,6 +15,8 @@ var targetFile = map[string]string{
 	"ChecksumSize":       "GenFrame",
 	"poolIndex":          "GenFrame",
 	"relayRoute":         "GenFrame",
+	"dcsSucceeded":       "GenFrame",
+	"dcsFailMsg":         "GenFrame",
 }
 
 // varFields: constant fields of package-level composite-literal variables.
@@ -83,4 +85,12 @@ var targets = []Target{
 			"shouldRelease, err := c.relay.Relay(frame)":                                       "",
 			"if err != nil {...": "",
 		}},
+	// relay.go: determinesCallSuccess (C09/C10): (succeeded, failMsg) of a frame forwarded to the caller side;
+	// errKey stands for newLazyError(f).Code().MetricsKey() of an error frame
+	{Func: "determinesCallSuccess", Out: "dcsSucceeded", Params: "(mt : Z) (resCode : Z) (errKey : list Z)", Ret: "bool", RetIdx: 0,
+		Hints:  map[string]string{"f.messageType()": "mt", "isCallResOK(f)": "(isCallResOK resCode)"},
+		SHints: map[string]string{"msg := newLazyError(f).Code().MetricsKey()": "let msg := errKey in"}},
+	{Func: "determinesCallSuccess", Out: "dcsFailMsg", Params: "(mt : Z) (resCode : Z) (errKey : list Z)", Ret: "list Z", RetIdx: 1,
+		Hints:  map[string]string{"f.messageType()": "mt", "isCallResOK(f)": "(isCallResOK resCode)"},
+		SHints: map[string]string{"msg := newLazyError(f).Code().MetricsKey()": "let msg := errKey in"}},
 }
